@@ -541,6 +541,15 @@ def family_timer():
         steps = [{"op": "submit", "id": 1, "part": 0, "size": 50}, {"op": "must_req", "n": 1, "ms": 2500}] + \
             [{"op": "submit", "id": i, "part": 0, "size": 400} for i in (2, 3, 4)] + [{"op": "must_outcomes", "n": 4, "ms": 3000}, {"op": "close"}]
         out.append(sc("timer-inflight-bytes-%s" % v, "timer", cfg, steps, pl))
+        # the first message of a fresh buffer already satisfies Flush.Bytes (no further trigger needed for IT), then its
+        # partition is bounced out of the buffer by the in-flight response: the small message of the other partition that
+        # stays behind must still leave when Flush.Frequency elapses, not when the bounced ones return after the back-off
+        cfg = dict(version=v, retryMax=2, leaders=[1, 1], nbrokers=1, flushBytes=1000, flushFreqMs=150, backoffMs=7000)
+        pl2 = {"1": {"hold": True, "part": {"0": "retry"}}}
+        steps = [{"op": "submit", "id": 1, "part": 0, "size": 1500}, {"op": "wait_req", "n": 1, "ms": 2500},
+                 {"op": "submit", "id": 2, "part": 0, "size": 1200}, {"op": "sleep", "ms": 300}, {"op": "submit", "id": 3, "part": 1, "size": 50}, {"op": "sleep", "ms": 300},
+                 {"op": "release", "n": 1}, {"op": "must_outcomes_by", "n": 1, "ms": 3000}, {"op": "wait_outcomes", "n": 3, "ms": 12000}, {"op": "close"}]
+        out.append(sc("timer-ready-then-dropped-%s" % v, "timer", cfg, steps, pl2))
     return out
 
 
@@ -701,6 +710,8 @@ def cause_of(tr, index):
     return cause
 
 
+REPEAT_THOROUGH = {"C02": 3, "C04": 3, "C05": 4, "C16": 4, "C18": 3}
+
 EXTRA = None   # set by c18: violations + coverage of the consumer part, merged into the verdict
 
 
@@ -730,6 +741,17 @@ def check(ctx, pid, families, mc_cfgs, level="model_checking", extra_assumptions
             gen_stats.append({"model": f[1], "behaviours": len(scs)})
         else:
             scs = f()
+            if ctx.tier == "thorough" and REPEAT_THOROUGH.get(pid, 1) > 1:
+                # a real execution is one sample of the scheduler's choices: the thorough tier runs every scenario of the
+                # deterministic families several times
+                rep = []
+                for k in range(REPEAT_THOROUGH[pid]):
+                    for s_ in scs:
+                        t_ = copy.deepcopy(s_)
+                        if k:
+                            t_["name"] = "%s~%d" % (s_["name"], k)
+                        rep.append(t_)
+                scs = rep
         for s_ in scs:
             fam_counts[s_["family"]] = fam_counts.get(s_["family"], 0) + 1
         scenarios += scs
